@@ -214,8 +214,12 @@ fn a64_kat() {
 // `impl_backends!` instantiations in armv8.rs) are lane-wise the single-block functions, through the real backend trait
 // methods `encrypt_par_blocks` / `encrypt_block` of the shadowed armv8.rs, for EVERY value of the round keys and of all
 // PAR blocks, buffer-to-buffer (guard blocks around the output, input compared afterwards) and in place.
-// The four AES instructions are replaced by cheap register-local stand-ins (p_* below): any register-local function exposes a lane mix-up, a skipped or repeated block, a wrong key index or a
-// read from the wrong buffer; what the instructions compute is the business of a64_encrypt_* / a64_decrypt_*.
+// The four AES instructions are replaced by cheap register-local stand-ins (p_* below): any register-local function
+// exposes a lane mix-up, a skipped or repeated block, a wrong key index or a read from the wrong buffer; what the
+// instructions compute is the business of a64_encrypt_* / a64_decrypt_*.
+//
+// Full-width stand-ins s_* (used by a64_hz_lanes and a64_conv_*): AESE / AESD = byte rotation of the state xor the whole
+// key xor a constant, AESMC / AESIMC = other byte rotations.
 fn rot_xor(a: &[u8; 16], k: &[u8; 16], r: usize, c: u8) -> [u8; 16] {
     let mut o = [0u8; 16];
     let mut i = 0;
@@ -318,17 +322,17 @@ macro_rules! a64_par {
 // a64_encdec_k11.rs / a64_armv8_k11.rs, where these two indices are written `keys[core::hint::black_box(11)]` /
 // `keys[core::hint::black_box(12)]` (same value, opaque to the optimiser; logged substitutions; all four occurrences
 // are inside `if KEYS == 15 { .. }`).
-// @ob name=a64_pareb_128 props=C04,C02,C03,C20 note="on shadow copies with keys[11], keys[12] written keys[black_box(11)], keys[black_box(12)] (Kani ICE on a constant out-of-range index in dead code)" fn=aes::armv8::encdec::encrypt_par,aes::armv8::Aes128BackEnc::encrypt_par_blocks,aes::armv8::Aes128BackEnc::encrypt_block timeout=1800
-// @ob name=a64_parei_128 props=C04,C02,C03,C20 note="on shadow copies with keys[11], keys[12] written keys[black_box(11)], keys[black_box(12)] (Kani ICE on a constant out-of-range index in dead code)" fn=aes::armv8::encdec::encrypt_par,aes::armv8::Aes128BackEnc::encrypt_par_blocks,aes::armv8::Aes128BackEnc::encrypt_block timeout=1800
+// @ob name=a64_pareb_128 tier=thorough props=C04,C02,C03,C20 note="on shadow copies with keys[11], keys[12] written keys[black_box(11)], keys[black_box(12)] (Kani ICE on a constant out-of-range index in dead code)" fn=aes::armv8::encdec::encrypt_par,aes::armv8::Aes128BackEnc::encrypt_par_blocks,aes::armv8::Aes128BackEnc::encrypt_block timeout=3600
+// @ob name=a64_parei_128 tier=thorough props=C04,C02,C03,C20 note="on shadow copies with keys[11], keys[12] written keys[black_box(11)], keys[black_box(12)] (Kani ICE on a constant out-of-range index in dead code)" fn=aes::armv8::encdec::encrypt_par,aes::armv8::Aes128BackEnc::encrypt_par_blocks,aes::armv8::Aes128BackEnc::encrypt_block timeout=3600
 a64_par!(a64_pareb_128, a64_parei_128, armv8_k11, Aes128BackEnc, encrypt_block, encrypt_par_blocks, 11, 21);
-// @ob name=a64_pardb_128 props=C04,C02,C03,C20 note="on shadow copies with keys[11], keys[12] written keys[black_box(11)], keys[black_box(12)] (Kani ICE on a constant out-of-range index in dead code)" fn=aes::armv8::encdec::decrypt_par,aes::armv8::Aes128BackDec::decrypt_par_blocks,aes::armv8::Aes128BackDec::decrypt_block timeout=1800
-// @ob name=a64_pardi_128 props=C04,C02,C03,C20 note="on shadow copies with keys[11], keys[12] written keys[black_box(11)], keys[black_box(12)] (Kani ICE on a constant out-of-range index in dead code)" fn=aes::armv8::encdec::decrypt_par,aes::armv8::Aes128BackDec::decrypt_par_blocks,aes::armv8::Aes128BackDec::decrypt_block timeout=1800
+// @ob name=a64_pardb_128 tier=thorough props=C04,C02,C03,C20 note="on shadow copies with keys[11], keys[12] written keys[black_box(11)], keys[black_box(12)] (Kani ICE on a constant out-of-range index in dead code)" fn=aes::armv8::encdec::decrypt_par,aes::armv8::Aes128BackDec::decrypt_par_blocks,aes::armv8::Aes128BackDec::decrypt_block timeout=3600
+// @ob name=a64_pardi_128 tier=thorough props=C04,C02,C03,C20 note="on shadow copies with keys[11], keys[12] written keys[black_box(11)], keys[black_box(12)] (Kani ICE on a constant out-of-range index in dead code)" fn=aes::armv8::encdec::decrypt_par,aes::armv8::Aes128BackDec::decrypt_par_blocks,aes::armv8::Aes128BackDec::decrypt_block timeout=3600
 a64_par!(a64_pardb_128, a64_pardi_128, armv8_k11, Aes128BackDec, decrypt_block, decrypt_par_blocks, 11, 21);
-// @ob name=a64_pareb_192 props=C04,C02,C03,C20 fn=aes::armv8::encdec::encrypt_par,aes::armv8::Aes192BackEnc::encrypt_par_blocks,aes::armv8::Aes192BackEnc::encrypt_block timeout=1800
-// @ob name=a64_parei_192 props=C04,C02,C03,C20 fn=aes::armv8::encdec::encrypt_par,aes::armv8::Aes192BackEnc::encrypt_par_blocks,aes::armv8::Aes192BackEnc::encrypt_block timeout=1800
+// @ob name=a64_pareb_192 tier=thorough props=C04,C02,C03,C20 fn=aes::armv8::encdec::encrypt_par,aes::armv8::Aes192BackEnc::encrypt_par_blocks,aes::armv8::Aes192BackEnc::encrypt_block timeout=3600
+// @ob name=a64_parei_192 tier=thorough props=C04,C02,C03,C20 fn=aes::armv8::encdec::encrypt_par,aes::armv8::Aes192BackEnc::encrypt_par_blocks,aes::armv8::Aes192BackEnc::encrypt_block timeout=3600
 a64_par!(a64_pareb_192, a64_parei_192, armv8, Aes192BackEnc, encrypt_block, encrypt_par_blocks, 13, 19);
-// @ob name=a64_pardb_192 props=C04,C02,C03,C20 fn=aes::armv8::encdec::decrypt_par,aes::armv8::Aes192BackDec::decrypt_par_blocks,aes::armv8::Aes192BackDec::decrypt_block timeout=1800
-// @ob name=a64_pardi_192 props=C04,C02,C03,C20 fn=aes::armv8::encdec::decrypt_par,aes::armv8::Aes192BackDec::decrypt_par_blocks,aes::armv8::Aes192BackDec::decrypt_block timeout=1800
+// @ob name=a64_pardb_192 tier=thorough props=C04,C02,C03,C20 fn=aes::armv8::encdec::decrypt_par,aes::armv8::Aes192BackDec::decrypt_par_blocks,aes::armv8::Aes192BackDec::decrypt_block timeout=3600
+// @ob name=a64_pardi_192 tier=thorough props=C04,C02,C03,C20 fn=aes::armv8::encdec::decrypt_par,aes::armv8::Aes192BackDec::decrypt_par_blocks,aes::armv8::Aes192BackDec::decrypt_block timeout=3600
 a64_par!(a64_pardb_192, a64_pardi_192, armv8, Aes192BackDec, decrypt_block, decrypt_par_blocks, 13, 19);
 // @ob name=a64_pareb_256 props=C04,C02,C03,C20 fn=aes::armv8::encdec::encrypt_par,aes::armv8::Aes256BackEnc::encrypt_par_blocks,aes::armv8::Aes256BackEnc::encrypt_block timeout=1800
 // @ob name=a64_parei_256 props=C04,C02,C03,C20 fn=aes::armv8::encdec::encrypt_par,aes::armv8::Aes256BackEnc::encrypt_par_blocks,aes::armv8::Aes256BackEnc::encrypt_block timeout=1800
@@ -390,17 +394,17 @@ macro_rules! a64_blocks {
         }
     };
 }
-// @ob name=a64_blkenc_128 props=C04,C02,C03,C20 kind=bounded bound="n = 22 blocks (PAR + 1), tagged block contents, symbolic round keys" note="on the k11 shadow copies, see a64_pareb_128" fn=aes::armv8::Aes128Enc::encrypt_with_backend,aes::armv8::Aes128BackEnc::encrypt_par_blocks,aes::armv8::Aes128BackEnc::encrypt_block timeout=1800
+// @ob name=a64_blkenc_128 tier=thorough props=C04,C02,C03,C20 kind=bounded bound="n = 22 blocks (PAR + 1), tagged block contents, symbolic round keys" note="on the k11 shadow copies, see a64_pareb_128" fn=aes::armv8::Aes128Enc::encrypt_with_backend,aes::armv8::Aes128BackEnc::encrypt_par_blocks,aes::armv8::Aes128BackEnc::encrypt_block timeout=3600
 a64_blocks!(a64_blkenc_128, armv8_k11, Aes128Enc, BlockCipherEncrypt, encrypt_block, encrypt_blocks, encrypt_blocks_b2b, 11, 22);
-// @ob name=a64_blkdec_128 props=C04,C02,C03,C20 kind=bounded bound="n = 22 blocks (PAR + 1), tagged block contents, symbolic round keys" note="on the k11 shadow copies, see a64_pareb_128" fn=aes::armv8::Aes128Dec::decrypt_with_backend,aes::armv8::Aes128BackDec::decrypt_par_blocks,aes::armv8::Aes128BackDec::decrypt_block timeout=1800
+// @ob name=a64_blkdec_128 tier=thorough props=C04,C02,C03,C20 kind=bounded bound="n = 22 blocks (PAR + 1), tagged block contents, symbolic round keys" note="on the k11 shadow copies, see a64_pareb_128" fn=aes::armv8::Aes128Dec::decrypt_with_backend,aes::armv8::Aes128BackDec::decrypt_par_blocks,aes::armv8::Aes128BackDec::decrypt_block timeout=3600
 a64_blocks!(a64_blkdec_128, armv8_k11, Aes128Dec, BlockCipherDecrypt, decrypt_block, decrypt_blocks, decrypt_blocks_b2b, 11, 22);
-// @ob name=a64_blkenc_192 props=C04,C02,C03,C20 kind=bounded bound="n = 20 blocks (PAR + 1), tagged block contents, symbolic round keys" fn=aes::armv8::Aes192Enc::encrypt_with_backend,aes::armv8::Aes192BackEnc::encrypt_par_blocks,aes::armv8::Aes192BackEnc::encrypt_block timeout=1800
+// @ob name=a64_blkenc_192 tier=thorough props=C04,C02,C03,C20 kind=bounded bound="n = 20 blocks (PAR + 1), tagged block contents, symbolic round keys" fn=aes::armv8::Aes192Enc::encrypt_with_backend,aes::armv8::Aes192BackEnc::encrypt_par_blocks,aes::armv8::Aes192BackEnc::encrypt_block timeout=3600
 a64_blocks!(a64_blkenc_192, armv8, Aes192Enc, BlockCipherEncrypt, encrypt_block, encrypt_blocks, encrypt_blocks_b2b, 13, 20);
-// @ob name=a64_blkdec_192 props=C04,C02,C03,C20 kind=bounded bound="n = 20 blocks (PAR + 1), tagged block contents, symbolic round keys" fn=aes::armv8::Aes192Dec::decrypt_with_backend,aes::armv8::Aes192BackDec::decrypt_par_blocks,aes::armv8::Aes192BackDec::decrypt_block timeout=1800
+// @ob name=a64_blkdec_192 tier=thorough props=C04,C02,C03,C20 kind=bounded bound="n = 20 blocks (PAR + 1), tagged block contents, symbolic round keys" fn=aes::armv8::Aes192Dec::decrypt_with_backend,aes::armv8::Aes192BackDec::decrypt_par_blocks,aes::armv8::Aes192BackDec::decrypt_block timeout=3600
 a64_blocks!(a64_blkdec_192, armv8, Aes192Dec, BlockCipherDecrypt, decrypt_block, decrypt_blocks, decrypt_blocks_b2b, 13, 20);
-// @ob name=a64_blkenc_256 props=C04,C02,C03,C20 kind=bounded bound="n = 18 blocks (PAR + 1), tagged block contents, symbolic round keys" fn=aes::armv8::Aes256Enc::encrypt_with_backend,aes::armv8::Aes256BackEnc::encrypt_par_blocks,aes::armv8::Aes256BackEnc::encrypt_block timeout=1800
+// @ob name=a64_blkenc_256 tier=thorough props=C04,C02,C03,C20 kind=bounded bound="n = 18 blocks (PAR + 1), tagged block contents, symbolic round keys" fn=aes::armv8::Aes256Enc::encrypt_with_backend,aes::armv8::Aes256BackEnc::encrypt_par_blocks,aes::armv8::Aes256BackEnc::encrypt_block timeout=3600
 a64_blocks!(a64_blkenc_256, armv8, Aes256Enc, BlockCipherEncrypt, encrypt_block, encrypt_blocks, encrypt_blocks_b2b, 15, 18);
-// @ob name=a64_blkdec_256 props=C04,C02,C03,C20 kind=bounded bound="n = 18 blocks (PAR + 1), tagged block contents, symbolic round keys" fn=aes::armv8::Aes256Dec::decrypt_with_backend,aes::armv8::Aes256BackDec::decrypt_par_blocks,aes::armv8::Aes256BackDec::decrypt_block timeout=1800
+// @ob name=a64_blkdec_256 tier=thorough props=C04,C02,C03,C20 kind=bounded bound="n = 18 blocks (PAR + 1), tagged block contents, symbolic round keys" fn=aes::armv8::Aes256Dec::decrypt_with_backend,aes::armv8::Aes256BackDec::decrypt_par_blocks,aes::armv8::Aes256BackDec::decrypt_block timeout=3600
 a64_blocks!(a64_blkdec_256, armv8, Aes256Dec, BlockCipherDecrypt, decrypt_block, decrypt_blocks, decrypt_blocks_b2b, 15, 18);
 
 // ---------------------------------------------------------------------------------------------------------------
